@@ -454,6 +454,20 @@ def focus_module(rng):
         ("FN", T("INTEGER", cons=C(None, 100))), ("FS", T("INTEGER", cons=C(-5, 5))), ("FNm", T("INTEGER", cons=None, named=[("one", 1), ("two", 2)])),
         ("FE", T("ENUMERATED", items=[("a", None), ("b", None), ("c", None)])),
         ("FEx", T("ENUMERATED", items=[("a", 3), ("b", 10), ("c", 200)], ext=[("d", 300)])),
+        # explicitly numbered items, negative numbers in the root, additions after an all-negative root (the wide representation
+        # holds the number in an INTEGER_t: sign handling of every decoder; the native one in a long).  asn1c accepts no negative
+        # number among the additions (asn1f_fix_enum starts its "previous maximum" at -1: `{ a(-100), ..., c(-20) }` is rejected)
+        ("FEn", T("ENUMERATED", items=[("n5", -5), ("n1", -1), ("z", 0), ("p7", 7)], ext=[("x300", 300)])),
+        ("FEp", T("ENUMERATED", items=[("a", -100), ("b", -50)], ext=[("e", 0), ("f", 5)])),
+        ("FEm", T("ENUMERATED", items=[("lo", -2147483648), ("m32769", -32769), ("m129", -129), ("m128", -128), ("m2", -2)])),
+        ("FEo", T("ENUMERATED", items=[("neg", -2)], ext=[("xz", 0), ("xpos", 1)])),
+        ("FSeqE", T("SEQUENCE", comps=[{"id": "er", "type": T("REF", name="FEn")},
+                                       {"id": "ei", "type": T("ENUMERATED", items=[("x", -1), ("y", -7), ("w", 2)]), "opt": "OPTIONAL"},
+                                       {"id": "ed", "type": T("ENUMERATED", items=[("dm", -4), ("dz", 0)]), "opt": ("DEFAULT", "dz", 0)},
+                                       {"id": "el", "type": T("SEQUENCE OF", elem=T("REF", name="FEm"), size=None), "opt": "OPTIONAL"},
+                                       {"id": "ec", "type": T("CHOICE", comps=[{"id": "ee", "type": T("ENUMERATED", items=[("q", -9), ("s", -7)], ext=[("t", 0), ("u", 4)])},
+                                                                                 {"id": "eb", "type": T("BOOLEAN")}]), "opt": "OPTIONAL"}])),
+        ("FSoE", T("SET OF", elem=T("ENUMERATED", items=[("a", -3), ("b", -2), ("c", 5)]), size=None)),
         ("FR", T("REAL")),
         ("FCh", ch),
         ("FSeq", T("SEQUENCE", comps=[{"id": "i", "type": T("INTEGER", cons=None)}, {"id": "u", "type": T("INTEGER", cons=C(0, None)), "opt": "OPTIONAL"},
@@ -475,7 +489,11 @@ def focus_module(rng):
             "FN": [v for v in ints if v <= 100], "FS": [-5, 0, 5], "FE": [0, 1, 2], "FEx": [3, 10, 200, 300], "FR": reals,
             "FCh": [("a", ints[7]), ("a", -2 ** 63), ("b", reals[5]), ("c", 2), ("c", 0), ("d", {"x": 2 ** 40, "y": True}), ("d", {"x": 0}), ("e", b"\x01\x02"),
                     ("d", {"x": 2 ** 63}), ("d", {"x": 2 ** 64 - 1, "y": False})],
-            "FSoI": [[], ints[:6], ints[6:]], "FSoR": [[], reals[:4], reals[4:8]]}
+            "FSoI": [[], ints[:6], ints[6:]], "FSoR": [[], reals[:4], reals[4:8]],
+            "FEn": [-5, -1, 0, 7, 300], "FEp": [-100, -50, 0, 5], "FEm": [-2147483648, -32769, -129, -128, -2], "FEo": [-2, 0, 1],
+            "FSeqE": [{"er": -5}, {"er": -1, "ei": -1, "ed": -4, "el": [-2, -128, -2147483648], "ec": ("ee", -9)}, {"er": 300, "ei": -7, "el": [], "ec": ("ee", 0)},
+                      {"er": 7, "ei": 2, "ed": -4, "el": [-129, -32769], "ec": ("ee", 4)}, {"er": -5, "ec": ("ee", -7)}, {"er": 0, "ec": ("eb", True)}],
+            "FSoE": [[], [-3], [-2, 5, -3, -3]]}
     vals["FSeq"] = [{"i": -129, "c": ("a", 5)}, {"i": 2 ** 63 - 1, "u": 2 ** 63 - 1, "e": 1, "r": reals[9], "c": ("d", {"x": 7, "y": False}), "l": [("a", 1), ("b", reals[4]), ("c", 1), ("e", b"\xff")]},
                     {"i": 0, "u": 0, "c": ("c", 2), "l": []},
                     {"i": -1, "u": 2 ** 63, "c": ("d", {"x": 2 ** 64 - 1})}, {"i": 1, "u": 2 ** 64 - 1, "c": ("a", 0), "l": [("d", {"x": 2 ** 63 + 5})]}]
@@ -558,7 +576,8 @@ CTS = ["-", "0,0,3,0,7", "1,0,3,0,7", "0,0,8,-128,127", "1,0,8,0,255", "0,0,16,0
        "0,0,-1,0,0", "1,0,-1,0,0"]
 OERS = [(0, 0), (0, 1), (1, 0), (1, 1), (2, 0), (2, 1), (4, 0), (4, 1), (8, 0), (8, 1)]
 MAPS = [("0:a,1:b,2:c", 0, ["0,0,2,0,2"]), ("0:a,1:b,5:c", 3, ["1,0,1,0,1"]), ("-5:x,3:y,10:z,200:w,300:v", 5, ["1,0,2,0,3"]),
-        ("0:a", 0, ["0,0,0,0,0", "-"]), ("1:a,2:b,3:c,4:d,5:e,6:f,7:g,8:h,9:i", 2, ["1,0,0,0,0"])]
+        ("0:a", 0, ["0,0,0,0,0", "-"]), ("1:a,2:b,3:c,4:d,5:e,6:f,7:g,8:h,9:i", 2, ["1,0,0,0,0"]),
+        ("-2147483648:lo,-32769:a,-129:b,-128:c,-2:d,-1:e", 0, ["0,0,3,0,5"]), ("-2:n,0:z,1:p", 1, ["1,0,0,0,0"])]
 
 def k_lines(ctx):
     ints = sorted(c16.boundary_ints())
@@ -658,7 +677,21 @@ def k_leg(ctx, st):
         if couts[ia] != exp_s: bad.append(("ber-decode", lines[ia], couts[ia], "wide value " + str(v), exp_s))
         exp_u = f"ok {v}" if 0 <= v < (1 << 64) else "fail"       # negative contents must be rejected, not wrapped (F3 repaired)
         if couts[iu] != exp_u: bad.append(("ber-decode-unsigned", lines[iu], couts[iu], "wide value " + str(v), exp_u))
-    ctx.cov["predicate"]["native_vs_wide_primitives"] = {"pairs": len(pairs) + 2 * len(dec_lines), "failures": len(bad)}
+    # decoding side of the ENUMERATED UPER path: NativeEnumerated_decode_uper and ENUMERATED_decode_uper on the octets the native
+    # encoder produced must both return the encoded number (C's outputs alone; the model has no such op)
+    dl = []; dmeta = []
+    for i, l in enumerate(lines):
+        o = str(couts[i])
+        if l.startswith("ne_uper ") and o.startswith("ok ") and o.split()[1] != "0":
+            _, mp, ext, ct, v = l.split()
+            for side in ("ne", "we"):
+                dl.append(f"{side}_uperdec {mp} {ext} {ct} {o.split()[2]}"); dmeta.append((int(v), l, o))
+    douts, _ = ctx.run_c_bisect(drv, dl)
+    ctx.cov["evaluations"] += len(dl)
+    for (v, l, o), dline, do in zip(dmeta, dl, douts):
+        if do != f"ok {v}": bad.append(("enum-uper-decode", l, o, dline, do))
+        else: ctx.count_nontrivial(("enum-uper-decode", dline))
+    ctx.cov["predicate"]["native_vs_wide_primitives"] = {"pairs": len(pairs) + 2 * len(dec_lines) + len(dl), "failures": len(bad)}
     for what, la, ca, lb, cb in bad[:4]:
         ctx.violation(f"C13: native and wide codec disagree ({what}): {la} -> {ca} but {lb} -> {cb}",
                       {"driver": "c13_driver", "op_a": la, "output_a": ca, "op_b": lb, "output_b": cb, "what": what})
@@ -689,8 +722,11 @@ def run(ctx):
             if i == 1: m = hoist_member_constraints(m)
             plan.append((m, None, option_sets(ctx, thorough_all=True)))
     for m, bvals, sets in plan:
+        nb = st.stats["modules"]
         run_module(ctx, st, m, bvals, sets, nvals)
         ctx.log(f"module {m['name']}: {len(sets)} option sets; totals {dict(st.stats)}")
+        if m is fm and st.stats["modules"] == nb:
+            ctx.broken.append({"kind": "harness", "msg": "the fixed focus module FOC does not build with the default options (see the log)"})
     ctx.cov["programs"] = st.stats["builds"]
     ctx.cov["predicate"]["option_invariance"] = {"stats": dict(st.stats), "failure_classes": len(st.fails), "skipped_known_regions": dict(st.skipped)}
     agg = collections.Counter()
